@@ -182,6 +182,7 @@ def _run_case(case):
     rest = rest_sig(sig, case['nfix'], case.get('pkw', []))
     others = [S.spell_full(rest, ob, 0) for ob in case.get('others', [])]
     others = [(prefix + oa, ok) for oa, ok in others if 'w' not in ok or not any(n == 'w' for n, _ in case.get('pkw', []))]
+    spelled_preset = False
     built = {}
     built2 = built
     if case.get('alias'):
@@ -193,12 +194,26 @@ def _run_case(case):
         built, built2 = {id(sa): obj, id(sb): obj}, {}       # spelling 1: one object in both places; spelling 2: two equal objects
     a1, k1 = S.spell_full(rest, case['binding'], case['form1'], built)
     a2, k2 = S.spell_full(rest, case['binding'], case['form2'], built2)
+    # a keyword the partial presets and that lands in **kw (not a parameter of its own): the second spelling may repeat the preset explicitly
+    kwnames = set(n for n, _ in sig['kwopt']) | set(sig['kwreq'])
+    for n, v in case.get('pkw', []):
+        if n not in kwnames and n not in k2 and n not in k1 and (case['form2'] // 64) % 2:
+            k2 = dict(k2)
+            k2[n] = V.build(v)
+            spelled_preset = True
     a1, a2 = prefix + a1, prefix + a2
-    b1, b2 = S.bound(oracle_fn, a1, k1), S.bound(oracle_fn, a2, k2)
+    if isinstance(oracle_fn, functools.partial):
+        # what the underlying callable is really called with: the partial's presets, overridden by the caller's keywords
+        b1 = S.bound(oracle_fn.func, tuple(oracle_fn.args) + tuple(a1), dict(oracle_fn.keywords or {}, **k1))
+        b2 = S.bound(oracle_fn.func, tuple(oracle_fn.args) + tuple(a2), dict(oracle_fn.keywords or {}, **k2))
+    else:
+        b1, b2 = S.bound(oracle_fn, a1, k1), S.bound(oracle_fn, a2, k2)
     classes = ['path:' + case['path'], 'kind:' + case['kind'], 'others:%d' % len(others), 'partial_kw:%s' % bool(case.get('pkw')), 'keymap:%s%s' % (case['keymap']['cls'], '' if case['keymap']['flat'] else '-nonflat'),
                'typed:%s' % case['keymap']['typed']]
     if case.get('alias'):
         classes.append('aliased_arguments')
+    if spelled_preset:
+        classes.append('extra_keyword_preset_spelled_out')
     if b1 is None or b2 is None or not S.bound_equal(b1, b2):
         # generator soundness: both spellings must be valid and bind identically
         return [Discrepancy('C09/harness/spellings-not-equivalent', '%r %r vs %r %r' % (a1, k1, a2, k2))], None, classes
@@ -311,7 +326,7 @@ def shape(sig):
     return (len(sig['req']), len(sig['opt']), bool(sig['varargs']), len(sig['kwreq']), len(sig['kwopt']), bool(sig['varkw']))
 
 
-REQUIRED_CLASSES = ['kind:bound', 'aliased_arguments', 'kind:partial_bound', 'ignore_in_effect', 'tol:0', 'tol:1', 'differs_beyond_kw_order', 'kw_order_differs', 'kind:method', 'kind:partial', 'path:call', 'path:keygen', 'path:_keygen', 'path:fkey']
+REQUIRED_CLASSES = ['extra_keyword_preset_spelled_out', 'kind:bound', 'aliased_arguments', 'kind:partial_bound', 'ignore_in_effect', 'tol:0', 'tol:1', 'differs_beyond_kw_order', 'kw_order_differs', 'kind:method', 'kind:partial', 'path:call', 'path:keygen', 'path:_keygen', 'path:fkey']
 
 EXCLUDED = {'float defaults that change under the rounding tolerance (finding D19, probed)': 'replaced by their rounded value',
             'multi-element sets in partial presets under a tolerance (deep rounding rebuilds a passed set, changing its repr order; same root cause as D19)': 'cut to one element'}
